@@ -5,6 +5,8 @@ observe(system, created=None, sup=None, moves=None) ->
  {"objects": [ {"name", "full" (obj.fullName() or None), "parent" (index|None), "cls", "kind" (int, 0 = None),
                 "contents": [[key, index]], "aliases": [[name, fullname]], "own_page": bool, "url": str|None,
                 "bases": [index|None] | None, "subs": [index] | None, "mro": [index|str] | None,
+                "base_scope": [[base expression, index|None of the class it was resolved to when the class statement was
+                                visited, index|None of the class that parent.resolveName(expression) is now]] | None,
                 "implements": [str] | None (implements_directly), "implementedby": [index] | None, "isinterface": bool,
                 "sup": bool (renamed by System.handleDuplicate)} ],
   "allobjects": [[key, index]]  (dict order), "roots": [index], "root_names": [str], "unprocessed": [index],
@@ -32,6 +34,20 @@ def safe(f, default=None):
         return default
     except Exception:  # noqa
         return default
+
+
+def base_scope(o):
+    """What each base expression of the class statement denotes IN THE SCOPE OF THE CLASS ITSELF (its parent):
+    [(expression, class it was resolved to at visit time | None, class it resolves to now | None)]."""
+    out = []
+    raw = safe(lambda: list(o.rawbases), []) or []
+    ini = safe(lambda: list(o._initialbaseobjects), []) or []
+    for pos, rb in enumerate(raw):
+        expr = rb[0] if isinstance(rb, (tuple, list)) else rb
+        first = ini[pos] if pos < len(ini) and isinstance(ini[pos], model.Class) else None
+        now = safe(lambda: o.parent.resolveName(expr)) if o.parent is not None else None
+        out.append((str(expr), first, now if isinstance(now, model.Class) else None))
+    return out
 
 
 def observe(system, created=None, sup=None, moves=None):
@@ -64,6 +80,9 @@ def observe(system, created=None, sup=None, moves=None):
                 see(b)
             for b in list(o.subclasses):
                 see(b)
+            for _, ini, now in base_scope(o):
+                see(ini)
+                see(now)
     supids = set(sup or [])
     out = []
     for o in objs:
@@ -73,11 +92,12 @@ def observe(system, created=None, sup=None, moves=None):
              'aliases': [[k, v] for k, v in getattr(o, '_localNameToFullName_map', {}).items()],
              'own_page': o.documentation_location is model.DocLocation.OWN_PAGE,
              'url': safe(lambda: o.url), 'sup': id(o) in supids,
-             'bases': None, 'subs': None, 'mro': None, 'implements': None, 'implementedby': None,
+             'bases': None, 'subs': None, 'mro': None, 'base_scope': None, 'implements': None, 'implementedby': None,
              'isinterface': bool(getattr(o, 'isinterface', False))}
         if isinstance(o, model.Class):
             d['bases'] = [see(b) if b is not None else None for b in (safe(lambda: list(o.baseobjects), []) or [])]
             d['subs'] = [see(b) for b in o.subclasses]
+            d['base_scope'] = [[e, see(a), see(b)] for e, a, b in base_scope(o)]
             m = safe(lambda: list(o.mro(True)), None)
             d['mro'] = None if m is None else [x if isinstance(x, str) else see(x) for x in m]
         if hasattr(o, 'implements_directly'):
